@@ -141,6 +141,12 @@ func genC07(d *Draw) Case {
 		c.Waiters = append(c.Waiters, WaiterPlan{})
 	}
 	c.Picks = drawPicks(d, 32)
+	switch d.N(8) {
+	case 6:
+		c.StartMode = 3 // set going through its throw events (if it has none, nothing runs)
+	case 7:
+		c.StartMode = 4 // never started: the cancel finds an instance that was only created
+	}
 	return c
 }
 
@@ -304,7 +310,7 @@ func checkC07(cc Case, r *simrt.Result) *Outcome {
 	}
 	if ended {
 		if waitRets < waits {
-			vl.add("C07/waiter-hangs", "%d of %d WaitUntilComplete call(s) had not returned after the cancel", waits-waitRets, waits)
+			vl.add("C07/waiter-hangs", "%d of %d WaitUntilComplete call(s) had not returned after the cancel (start mode %d)", waits-waitRets, waits, c.StartMode)
 		}
 		if !tracerDone {
 			vl.add("C07/tracer-not-done", "Tracer().Done() was not closed after the cancel and a full quiescence period")
@@ -359,6 +365,8 @@ func checkC07(cc Case, r *simrt.Result) *Outcome {
 	probe(o, "cancel-landed-mid-flight", cancelN > 0)
 	probe(o, "cancel-while-task-pending", cancelN > 0 && pendingAtCancel > 0)
 	probe(o, "cancel-after-rest", cancelN == 0)
+	probe(o, "instance-set-going-through-its-throw-events", c.StartMode == 3 && reqs > 0)
+	probe(o, "instance-never-started", c.StartMode == 4)
 	probe(o, "event-nodes-present", c.Meta["c07family"] >= 2)
 	probe(o, "task-trace-raced-cancel", lateTask > 0)
 	if cancelN > 0 {
